@@ -62,6 +62,10 @@ def run(tier, seed):
             h = Harness(ck, 'c06_small_S%d%d%d%d_%d%d' % (p + q), s); hs.append(h)
             batch.add(h, T, only=['simplify_ok'] + ([] if quick or (p, q) not in pq3 else ['simplify3_ok']),
                       bounds='grid %dx%d, P=%r, second area on columns %r with symbolic rows, witness cell symbolic' % (G, G, p, q))
+        # value level, through a real workbook formula and a formula compiled alone (tier S)
+        vsrc = open(os.path.join(ROOT, 'harness', 'c06_values.py')).read()
+        h = Harness(ck, 'c06_values', vsrc); hs.append(h)
+        batch.add(h, T, only=['values_ok'], bounds='two of 12 combined reference expressions (union with repeated / overlapping areas, intersections, empty intersection, absolute spelling) inside ONE formula over a 4x3 grid holding 3**k: SUM+SUM and SUM+COUNT, workbook model and formula compiled alone')
         batch.run()
     finally:
         for h in hs:
